@@ -3,7 +3,7 @@
 # Never touches /repo's working tree. Prints one line per refactoring listing the checks that did not exit 0.
 # Usage: ref_matrix.sh [dir (default /verif/refactors)] [name filter regex]
 dir=${1:-/verif/refactors}; filter=${2:-.}
-bin=/verif/bin/vorecheck; [ -x /verif/bin/vorecheck.dev ] && bin=/verif/bin/vorecheck.dev
+bin=/verif/bin/vorecheck; [ -x /verif/bin/vorecheck.dev ] && bin=/verif/bin/vorecheck.dev; [ -n "$VBIN" ] && bin=$VBIN
 props=$(jq -r '.checks[].property_id' /verif/MANIFEST.json | tr '\n' ' ')
 one() {
   sd=$1; dir=$2; bin=$3; shift 3
